@@ -27,10 +27,12 @@ def plan(tier):
     if tier == "quick":
         return {"ncases": 320, "min_nontrivial": 80, "case_time_limit": 120,
                 "required_classes": ["one-term", "one-site", "offset", "complex-factor", "multi-dof-site", "swap-walk",
+                                     "swap-walk:product-pair-then-overlapping-swap",
                                      "duplicate-terms", "interleaved-same-site", "identical-duplicate-term", "units:tiny", "units:huge", "long-chain"],
                 "required_counters": {"oracle": 600, "swaps": 100}}
     return {"ncases": 15000, "min_nontrivial": 4500, "case_time_limit": 300,
             "required_classes": ["one-term", "one-site", "offset", "complex-factor", "multi-dof-site", "swap-walk",
+                                     "swap-walk:product-pair-then-overlapping-swap",
                                  "duplicate-terms", "interleaved-same-site", "real-factor-complex-matrix", "identical-duplicate-term",
                                  "units:tiny", "units:huge", "long-chain"],
             "required_counters": {"oracle": 30000, "swaps": 9000}}
@@ -86,6 +88,28 @@ def build_case(ctx):
     complex_factors = rng.random() < 0.4
     allow_complex = complex_factors or rng.random() < 0.25
     terms = gen.random_terms(rng, gm, nterms, allow_complex=allow_complex, complex_factors=complex_factors)
+    ctx.pair = None
+    if len(gm.basis) >= 3 and rng.random() < 0.12:
+        # every term is the SAME product A_i B_{i+1} on two adjacent sites times something on the other sites: the operator
+        # bonds left of, between and right of the pair have dimension one, the other bonds do not
+        i0 = int(rng.integers(0, len(gm.basis) - 1))
+        cat_a = [so for so in gm.catalog[i0] if (allow_complex or not so.is_complex) and set(so.words) != {"I"}]
+        cat_b = [so for so in gm.catalog[i0 + 1] if (allow_complex or not so.is_complex) and set(so.words) != {"I"}]
+        rest = []
+        for _ in range(200):
+            if len(rest) >= max(2, min(nterms, 8)):
+                break
+            so = gen.random_siteops(rng, gm, allow_complex=allow_complex)
+            if so is None:
+                continue
+            so = [x for x in so if x.site not in (i0, i0 + 1)]
+            if so:
+                rest.append(so)
+        if cat_a and cat_b and len(rest) >= 2:
+            A, B = cat_a[int(rng.integers(0, len(cat_a)))], cat_b[int(rng.integers(0, len(cat_b)))]
+            terms = [gen.make_op([A, B] + so, gen.random_factor(rng, complex_factors, 1)) for so in rest]
+            ctx.pair = i0
+            ctx.cls("terms:common-product-on-an-adjacent-pair")
     # interleaved same-site symbols: rewrite some multi-site terms with a riffled word order
     new_terms = []
     for t in terms:
@@ -222,7 +246,7 @@ def run_case(ctx):
 
     # ---- swap walks --------------------------------------------------------------------------------
     nsite = len(basis)
-    if nsite >= 2 and rng.random() < (0.6 if ctx.tier == "quick" else 0.45):
+    if nsite >= 2 and (rng.random() < (0.6 if ctx.tier == "quick" else 0.45) or getattr(ctx, "pair", None) is not None):
         ctx.cls("swap-walk")
         algo = ALGOS[int(rng.integers(0, 3))]
         mpo = results.get(algo)
@@ -239,8 +263,16 @@ def run_case(ctx):
         order = list(range(nsite))
         cur_basis = list(basis)
         nsw = int(rng.integers(1, 9))
+        forced = []
+        pair = getattr(ctx, "pair", None)
+        if pair is not None:
+            # exchange the product pair first, then a swap that overlaps it
+            nb = [j for j in (pair - 1, pair + 1) if 0 <= j < nsite - 1]
+            forced = [pair, nb[int(rng.integers(0, len(nb)))]]
+            nsw = max(nsw, 3)
+            ctx.cls("swap-walk:product-pair-then-overlapping-swap")
         for k in range(nsw):
-            i = int(rng.integers(0, nsite - 1))
+            i = forced[k] if k < len(forced) else int(rng.integers(0, nsite - 1))
             cur_basis[i], cur_basis[i + 1] = cur_basis[i + 1], cur_basis[i]
             order[i], order[i + 1] = order[i + 1], order[i]
             new_model = Model(list(cur_basis), [])
